@@ -29,6 +29,13 @@ def aim_base(rng, row, w, case, fields=('n',)):
                 p = data[0] + data[1] - rng.choice((1, 2, 3, 4, 5, 8, 12, 16))
             else:
                 p = rng.choice((0, 4, 8, 0x10, M32, M32 - 3, M32 - 7, 0xFFFFFFF0, 0x7C))
+            big = [m_ for m_ in case['mems'] if m_[1] >= 0x20000]
+            if big and rng.random() < 0.8:
+                # a large device that does not begin at a multiple of the access size: aligned accesses at 64 KiB / 4 KiB multiples inside it
+                b_, sz_ = big[0]
+                p = rng.choice(((b_ + 0x10000) & ~0xFFFF, (b_ + 0x20000) & ~0xFFFF, b_ + 0x10000, (b_ + 0x1000) & ~0xFFF)) + rng.choice((0, 0, -4, -2, -8, 4, -1))
+                if f.get('P', 0) and isinstance(f.get('i'), int) and 'U' in f and len(row.fields.get('i', ())) in (8, 12) and rng.random() < 0.8:
+                    p += -f['i'] if f['U'] else f['i']            # (immediate-offset forms: the access, not the base, goes there)
             st[gen.bank_key(f[fld], mode)] = p & M32
     if 'm' in f and isinstance(f['m'], int) and f['m'] <= 14 and 'n' in f and f['m'] != f.get('n') and rng.random() < 0.7:
         st[gen.bank_key(f['m'], mode)] = rng.choice((0, 1, 2, 3, 4, 8, 0x10, 0x20, M32, M32 - 3, 0xFFFFFFF0, 5))
